@@ -22,6 +22,11 @@ enum class C14Special
     SPELLING_IN_MATH, // liter / meter also on cn cellml:units
     SPLIT_GROUPS, // the encapsulation hierarchy is spread over several encapsulation groups
     DEEP_EXTRAS, // RDF / extension content inside units, unit, connection, map_*, component_ref, group, import; offset="0.0" on unit
+    MATH_ELEMENT_ID, // cmeta:id on the <math> element itself, prefix declared on an ancestor only
+    MATHML_NS_ANCESTOR, // MathML namespace declared on the model element (prefixed <m:math>, or default namespace of a cellml:-prefixed document)
+    GROUP_CONNECTION_ID, // the encapsulation id on <group>, connection ids on <connection> (not on map_components)
+    SPLIT_TREES, // the hierarchy is written as sibling component_ref trees of ONE group (a>b and b>c)
+    SCOPED_UNITS_COPIES, // a units used by several components is declared (identically) inside each of them
 };
 const char *c14SpecialName(C14Special s);
 
@@ -37,6 +42,9 @@ struct C14Options
     bool oldSpellings = false; // liter / meter on unit@units and variable@units
     bool extras = false; // RDF, documentation, reaction, extension attributes, containment group, ids on group/connection: must be dropped with at most a MESSAGE
     bool explicitDefaults = false; // prefix="0", exponent="1.0", multiplier="1.0", base_units="no"
+    bool mathIds = false; // math blocks of the spec carry cmeta:id (on apply / math) with a local xmlns:cmeta: the writer may move the declaration to the model
+    bool mathmlPrefix = false; // <m:math xmlns:m="...MathML"> (declaration on the math element itself)
+    bool elementPrefix = false; // CellML elements written with a prefix (<cellml:model xmlns:cellml="...1.x#">), no default namespace
     int mathNs = 0; // 0: tape decides per math block; 1: on <math>; 2: on model; 3: on component; 4: on every cn
     C14Special special = C14Special::NONE;
 };
@@ -54,6 +62,7 @@ struct C14Doc
     bool cmetaIdUsed = false;
     bool oldSpellingUsed = false;
     bool specialRealised = false; // the special construct was actually written
+    bool mathmlPrefixed = false, cellmlElementsPrefixed = false, cmetaDeclOnModelOnly = false;
     bool nsOnMath = false, nsOnModel = false, nsOnComponent = false, nsOnCn = false, nsOtherPrefix = false;
     std::string specialDetail; // DEEP_EXTRAS: which location was used
     int extrasWritten = 0;
